@@ -85,7 +85,7 @@ def coq_expr(c, hint):
         e = c17_range.coq_expr(c)     # sum in the column type (checked / wrapped), mean with f64 exactness tracked
         if e:
             return e
-    v = lib.zlist(c["vals"])
+    v = c17_range.zlist(c["vals"])
     n = c["name"]
     if n in ("min", "max", "sum", "mean"):
         return "agg_%s %s" % (n, v)
@@ -213,7 +213,7 @@ def tie(tier, seed, replay):
                 rule="function level: exhaustive lists over {-2..2} up to length 4 (quick) / 5 (thorough) for min/max/sum/mean; percentile: lists over {0,1,2} x 12 dyadic p incl. 0 and 100; random long lists; count/not under 4 iterator shapes (size hints); non-trivial = non-empty input; distinct = distinct (aggregator, p, iterator kind, list, column type, build). "
                      "Value range (gen/c17_range.py): min / max / percentile / sum / count / not at i8 i16 i32 i64 u8 u16 u32 u64 and mean at i8 i16 i32 u8 u16 u32 f32: all lists of length <= 2 over the "
                      "edge values {MIN, MIN+1, MIN/2, -1, 0, 1, MAX/2, MAX/2+1, MAX-1, MAX} of the type, random lists (length 2..100) near MAX / near MIN / at both ends / uniform over the type, with repeated values, "
-                     "columns of 300..700 (thorough ..5000) moderate or constant values whose total leaves the type; sum additionally on columns whose positive / negative parts total exactly or nearly MAX / MIN; "
+                     "columns of 300..700 (thorough ..5000) moderate or constant values whose total leaves the type (percentile at every p, count / not under the 4 iterator shapes), one u8 column of 70 000 rows (mean, percentile 99 / 100, count, not); sum additionally on columns whose positive / negative parts total exactly or nearly MAX / MIN; "
                      "sum is compared with the definition only inside its precondition (negative and positive inputs each total within the type), outside it only with the model of the code (panic with overflow checks, wrap without); "
                      "mean is compared bit-exactly (tolerance 0) with the exact rational mean rounded to f64: every case has sum|v| <= 2^53, so the code's f64 additions are exact and its one division is correctly rounded; "
                      "every range case runs on the driver built with overflow checks (dev profile) and without (release profile). "
